@@ -160,6 +160,10 @@ func via(src stream.Source[int64], name string, x execCfg) (stream.Source[int64]
 	case "OPar1", "OPar2", "OPar3":
 		n, _ := strconv.Atoi(name[4:])
 		return stream.Via(src, stream.OrderedParallelMap(n, func(v int64) int64 { jitter(x, v); return v + 1 })), nil
+	case "FMC":
+		return stream.Via(src, stream.FlatMapConcat(func(v int64) stream.Source[int64] { return stream.Of(v, v+10) })), nil
+	case "FMM2":
+		return stream.Via(src, stream.FlatMapMerge(2, func(v int64) stream.Source[int64] { jitter(x, v); return stream.Of(v, v+10) })), nil
 	case "Par2", "Par3":
 		n, _ := strconv.Atoi(name[3:])
 		return stream.Via(src, stream.ParallelMap(n, func(v int64) int64 { jitter(x, v); return v + 1 })), nil
